@@ -40,6 +40,8 @@ func checkC04(r *core.Run) {
 	ruleRefundBooked(r)
 	r.Rule("T-refund-class: in market.Withdraw the full-duration price is refunded only for a waiting shard, the remaining-term price only for a completed shard of this order; no other shard state contributes")
 	ruleWithdrawClass(r)
+	r.Rule("T-append-fresh: at every WorkerAppend the shard's CreatedAt was set to the current height on every path before (the booking pays price x size x (height - CreatedAt) of back-pay)")
+	ruleAppendFresh(r, "C04")
 
 	// ---- Store
 	if fn := r.Func("T-charge", "sao/keeper.msgServer.Store"); fn != nil {
@@ -196,6 +198,8 @@ func checkC05(r *core.Run) {
 	r.Assume(aDeps)
 	r.Assume(aCG)
 	ruleFlows(r, "C05")
+	r.Rule("T-aliaskey: the alias entry removed on rollback/deletion is addressed by the same key expression under which NewMeta wrote it")
+	ruleAliasKeyShape(r, "T-aliaskey")
 	rb := "model/keeper.Keeper.RollbackMeta"
 	evalStoreVal(r, "T-rollback", rb, "model/types.Metadata.OrderId", []string{"*.Orders[last]"}, "the previously committed version's order is the last entry of the model's Orders list (Orders and Commits are not parallel: a renewal appends an order without a commit)")
 	evalStoreVal(r, "T-rollback", rb, "model/types.Metadata.Commit", []string{"*.Commits[last]*"}, "the previously committed version is the last entry of the model's Commits list")
